@@ -10,9 +10,10 @@ use crate::Prop;
 
 pub struct C17;
 
-const GOOD_NUM: [&str; 22] = [
+const GOOD_NUM: [&str; 38] = [
     "0", "7", "-3", "+4", "1.5", "-.25", "3.", "1E2", "1e2", "2D1", "1.5E-1", "32767", "-32768", "32768", "40000", "&H1F",
-    "&hff", "&17", "", "  12  ", "1E5", "0.1",
+    "&hff", "&17", "", "  12  ", "1E5", "0.1", "&HD", "&h1d", "&HAD", " &H7D0 ", "&H1E", "&hE2", "&HDE", "&h7fff", "&77777",
+    "&0", "&H0", "2d-1", "1D+2", "1.25d1", "007", "-0.5",
 ];
 const BAD_NUM: [&str; 12] = ["x", "1x", "--1", "1 2", "12AB", "inf", "nan", ".", "E5", "&HG", "&8", "\"5\""];
 const STRS: [&str; 12] = ["HELLO", "hello world", "", "  padded  ", "\"quoted\"", "\"a,b\"", "\"  keep  \"", "é→ß", "\"", "a\"b", "\"x", "12"];
@@ -98,7 +99,7 @@ fn split_fields(reply: &str, n: usize) -> Option<Vec<String>> {
 impl Prop for C17 {
     fn cases(&self, tier: Tier) -> u64 {
         match tier {
-            Tier::Quick => 40_000,
+            Tier::Quick => 400_000,
             Tier::Thorough => 4_000_000,
         }
     }
